@@ -93,10 +93,36 @@ impl Iterator for RecIter {
 pub fn verif_records(p: &mut EvtxParser) -> (r: RecIter0)
     ensures r.recs == old(p).recs(), r.pos == 0, final(p).recs() == old(p).recs()
 { unimplemented!() }
+// ---- assumed: chrono's conversions between zones and naive values (an instant is an instant in every zone; a naive value is a
+// wall-clock reading: the instant plus the zone's offset)
+pub struct Utc;
 #[verifier::external_body]
-pub fn datetimelopt_to_timestampopt(datetimeopt: &DateTimeLOpt) -> (r: TimestampOpt)
+pub struct NaiveDateTime { _p: u8 }
+pub uninterp spec fn naive_val(n: NaiveDateTime) -> int;
+pub uninterp spec fn offset_of(dt: DateTimeL) -> int;
+impl DateTimeL {
+    #[verifier::external_body]
+    pub fn with_timezone(&self, tz: &Utc) -> (r: Timestamp) ensures ts_instant(r) == instant(*self) { unimplemented!() }
+    #[verifier::external_body]
+    pub fn to_utc(&self) -> (r: Timestamp) ensures ts_instant(r) == instant(*self) { unimplemented!() }
+    #[verifier::external_body]
+    pub fn naive_utc(&self) -> (r: NaiveDateTime) ensures naive_val(r) == instant(*self) { unimplemented!() }
+    #[verifier::external_body]
+    pub fn naive_local(&self) -> (r: NaiveDateTime) ensures naive_val(r) == instant(*self) + offset_of(*self) { unimplemented!() }
+}
+impl NaiveDateTime {
+    #[verifier::external_body]
+    pub fn and_utc(&self) -> (r: Timestamp) ensures ts_instant(r) == naive_val(*self) { unimplemented!() }
+}
+// ---- real: the window bounds are converted to the records' time scale without changing the instant
+//@cut fn path=src/readers/evtxreader.rs name=datetimel_to_timestamp ret=r
+//@spec
+    ensures ts_instant(r) == instant(*datetime)
+//@end
+//@cut fn path=src/readers/evtxreader.rs name=datetimelopt_to_timestampopt ret=r
+//@spec
     ensures oti(r) == (match *datetimeopt { Some(x) => Some(instant(x)), None => None })
-{ unimplemented!() }
+//@end
 
 pub type EventsKey = (Timestamp, usize);
 pub type Events = BTreeMap<EventsKey, Evtx>;
